@@ -29,6 +29,11 @@ class C15(E1Prop):
         super().begin(w, rng)
         self.script = []
         self.after_reset = {}   # pr id -> True: next evaluation must rebuild
+        self.nfp = 0
+
+    def gen_config(self, rng, tier):
+        self.tier = tier
+        return super().gen_config(rng, tier)
 
     def next_op(self, w, rng, step, nsteps):
         if self.script:
@@ -55,8 +60,51 @@ class C15(E1Prop):
                      'text': '@%s %s' % (ROBOT, cmd), 'dt': 5},
                     {'op': 'eval', 'p': p, 'dt': 1},
                     {'op': 'eval', 'p': p, 'dt': 1}]
+                if self.nfp < (2 if getattr(self, 'tier', 'quick') == 'quick'
+                               else 6) and rng.random() < 0.5:
+                    # the job that executes the command is also tried with
+                    # one of its git commands failing
+                    self.nfp += 1
+                    self.script[-2]['faultprobe'] = {
+                        'pick': rng.randrange(10 ** 9),
+                        'nmax': 6 if self.tier == 'quick' else 24}
                 return self.script.pop(0)
         return self.gen.next(w)
+
+    def apply(self, w, op):
+        fp = op.get('faultprobe')
+        if not fp:
+            return ops.apply_op(w, op)
+        import random
+
+        def clean(w_):
+            recs = ops.op_eval(w_, dict(op)) or []
+            return recs[0]['ncmd'] if recs else 0
+        if 'plans' not in fp:
+            ncmd = w.fork_variant(clean)
+            r = random.Random(fp['pick'])
+            # the commands of clone() come first: half of the sample there
+            head = list(range(min(ncmd, 12)))
+            tail = list(range(len(head), ncmd))
+            k = fp['nmax'] // 2
+            ns = (r.sample(head, min(k, len(head))) +
+                  r.sample(tail, min(fp['nmax'] - k, len(tail))))
+            fp['plans'] = [{'kind': 'giterr', 'n': n} for n in sorted(ns)]
+        for plan in list(fp['plans']):
+            def run(w_, plan=plan):
+                w_.on_job_done = lambda rec: self.check_job(w_, rec,
+                                                            faulted=True)
+                recs = ops.op_eval(w_, dict(op, plan=dict(plan))) or []
+                return recs[0]['status'] if recs else None
+            try:
+                st = w.fork_variant(run)
+            except Violation as v:
+                fp['plans'] = [plan]
+                v.detail['plan'] = plan
+                raise
+            w._count_fault('giterr')
+            w.probe('reset-under-git-fault:%s' % st)
+        return ops.apply_op(w, op)
 
     def manual_work(self, w, pr, refs):
         """Manual commits still held by an integration branch of pr:
@@ -81,7 +129,7 @@ class C15(E1Prop):
             out.append(mc)
         return out
 
-    def check_job(self, w, rec):
+    def check_job(self, w, rec, faulted=False):
         status = rec['status']
         before, after = rec['refs_before'], rec['refs_after']
         # which PR does this job evaluate?
@@ -117,6 +165,23 @@ class C15(E1Prop):
             declined = [i for i, st in rec['prs_after'].items()
                         if st == 'DECLINED' and
                         rec['prs_before'].get(i) != 'DECLINED']
+            if manual and cmd == 'reset' and faulted:
+                # with a git command failing underneath, whatever the job
+                # answers, the manual work must still be on the remote
+                left = self.manual_work(w, pr, after)
+                lost = [m for m in manual if m not in left]
+                if lost:
+                    raise Violation(
+                        'C15', 'C15:manual-work-discarded:%s:under-git-fault'
+                        % status,
+                        'PR #%d: integration branch %s held the manual '
+                        'commit %s; with one git command failing `reset` '
+                        'ended %s and the commit is gone (changed %s)' % (
+                            pid, lost[0]['branch'], lost[0]['sha'][:10],
+                            status, sorted(changed)), {'manual': lost})
+                return
+            if faulted:
+                return
             if manual and cmd == 'reset':
                 w.probe('reset-refused-with-manual-work'
                         if status == 'LossyResetWarning' else
